@@ -16,470 +16,715 @@ namespace SpyneModel.Conc
 theorem setLoc_loc (s : State) (i : Nat) (l : Local) (j : Nat) :
     (s.setLoc i l).loc j = if j = i then l else s.loc j := rfl
 
-theorem run_append (rs : Bool) (p : Prog) (a b : List Nat) :
-    ∀ s, run rs p s (a ++ b) = run rs p (run rs p s a) b := by
+theorem run_append (c : Cfg) (p : Prog) (a b : List Nat) :
+    ∀ s, run c p s (a ++ b) = run c p (run c p s a) b := by
   induction a with
   | nil => intro s; rfl
   | cons i rest ih => intro s; simp only [List.cons_append, run]; exact ih _
 
 /-- a step of thread `i` never touches the private state of another thread -/
-theorem step_other (rs : Bool) (p : Prog) (s : State) (i j : Nat) (h : j ≠ i) :
-    (step rs p s i).loc j = s.loc j := by
+theorem step_other (c : Cfg) (p : Prog) (s : State) (i j : Nat) (h : j ≠ i) :
+    (step c p s i).loc j = s.loc j := by
   unfold step
   dsimp only
   split
   · rfl
-  · split <;> (try split) <;> simp [State.setLoc, h]
+  · split <;> (try simp only [raise]) <;> (repeat' split) <;> simp [State.setLoc, h]
 
-theorem localRun_is_run (rs : Bool) (p : Prog) (i : Nat) (fuel : Nat) :
-    ∀ s, ∃ k, localRun rs p fuel s i = run rs p s (List.replicate k i) := by
+theorem localRun_is_run (c : Cfg) (p : Prog) (i : Nat) (fuel : Nat) :
+    ∀ s, ∃ k, localRun c p fuel s i = run c p s (List.replicate k i) := by
   induction fuel with
   | zero => intro s; exact ⟨0, rfl⟩
   | succ n ih =>
     intro s
     simp only [localRun]
     split
-    · obtain ⟨k, hk⟩ := ih (step rs p s i)
+    · obtain ⟨k, hk⟩ := ih (step c p s i)
       exact ⟨k + 1, by rw [hk]; rfl⟩
     · exact ⟨0, rfl⟩
 
 /-- a macro step (what one baton hand-over of the real scheduler executes) is a sequence of
     ordinary steps of the same thread -/
-theorem macroStep_is_run (rs : Bool) (p : Prog) (s : State) (i : Nat) :
-    ∃ l, macroStep rs p s i = run rs p s l := by
+theorem macroStep_is_run (c : Cfg) (p : Prog) (s : State) (i : Nat) :
+    ∃ l, macroStep c p s i = run c p s l := by
   unfold macroStep
-  obtain ⟨k1, h1⟩ := localRun_is_run rs p i p.length s
-  obtain ⟨k2, h2⟩ := localRun_is_run rs p i p.length (step rs p (localRun rs p p.length s i) i)
+  obtain ⟨k1, h1⟩ := localRun_is_run c p i p.length s
+  obtain ⟨k2, h2⟩ := localRun_is_run c p i p.length (step c p (localRun c p p.length s i) i)
   refine ⟨List.replicate k1 i ++ ([i] ++ List.replicate k2 i), ?_⟩
   rw [h2, h1, run_append, run_append]
   rfl
 
-theorem runMacro_is_run (rs : Bool) (p : Prog) (sched : List Nat) :
-    ∀ s, ∃ l, runMacro rs p s sched = run rs p s l := by
+theorem runMacro_is_run (c : Cfg) (p : Prog) (sched : List Nat) :
+    ∀ s, ∃ l, runMacro c p s sched = run c p s l := by
   induction sched with
   | nil => intro s; exact ⟨[], rfl⟩
   | cons i rest ih =>
     intro s
-    obtain ⟨l1, h1⟩ := macroStep_is_run rs p s i
-    obtain ⟨l2, h2⟩ := ih (macroStep rs p s i)
+    obtain ⟨l1, h1⟩ := macroStep_is_run c p s i
+    obtain ⟨l2, h2⟩ := ih (macroStep c p s i)
     exact ⟨l1 ++ l2, by simp only [runMacro]; rw [h2, h1, run_append]⟩
 
-/-! ### the invariant of `expectedSkeleton` -/
+/-! ### the invariant of `expectedSkeleton` (builder resets its dicts; any build may fail) -/
 
 /-- a place holds nothing or the sequential document -/
 def okv (v : Option Doc) : Prop := v = none ∨ v = some .whole
 
+/-- program counters at which the thread holds the build lock -/
+def held (pc : Nat) : Prop := (9 ≤ pc ∧ pc ≤ 18) ∨ pc = 20
+
+/-- some build is made to fail -/
+def HasFailure (c : Cfg) : Prop := ∃ k, c.fail k ≠ .ok
+
 /-- per-thread part of the invariant, indexed by the program counter -/
-structure TInv (s : State) (i : Nat) : Prop where
+structure TInv (c : Cfg) (s : State) (i : Nat) : Prop where
   w_ok : okv (s.loc i).w
   t_ok : okv (s.loc i).t
-  resp_ok : (s.loc i).resp = none ∨ (s.loc i).resp = some (some .whole)
-  pc_le : (s.loc i).pc ≤ 18
-  resp_iff : (s.loc i).pc = 18 ↔ (s.loc i).resp ≠ none
+  resp_ok : (s.loc i).resp = none ∨ (s.loc i).resp = some (.doc (some .whole)) ∨ (s.loc i).resp = some .error
+  pc_le : (s.loc i).pc ≤ 23
+  resp_iff : (s.loc i).pc = 23 ↔ (s.loc i).resp ≠ none
   /-- inside the locked region ⇒ holds the lock -/
-  crit : 8 ≤ (s.loc i).pc → (s.loc i).pc ≤ 16 → s.lock = some i
-  /-- holds the lock ⇒ inside the locked region -/
-  crit' : s.lock = some i → 8 ≤ (s.loc i).pc ∧ (s.loc i).pc ≤ 16
-  p3 : ((s.loc i).pc = 3 ∨ (s.loc i).pc = 4) → (s.loc i).t ≠ none → s.builds = 1
+  crit : held (s.loc i).pc → s.lock = some i
+  /-- holds the lock ⇒ inside the locked region (in particular: has not answered) -/
+  crit' : s.lock = some i → held (s.loc i).pc
+  /-- inside the `try` body the `except` clause is armed -/
+  hnd : 8 ≤ (s.loc i).pc → (s.loc i).pc ≤ 17 → (s.loc i).handler = some 20
+  p3 : ((s.loc i).pc = 3 ∨ (s.loc i).pc = 4) → (s.loc i).t ≠ none → s.succ = 1
   p4 : (s.loc i).pc = 4 → (s.loc i).t ≠ none
-  p8 : (s.loc i).pc = 8 → (s.builds = 0 ∨ s.cache = some .whole)
-  p9 : (s.loc i).pc = 9 →
-    ((s.loc i).w = none → s.builds = 0) ∧ ((s.loc i).w ≠ none → s.cache = some .whole)
-  p10 : (s.loc i).pc = 10 → s.builds = 0
-  p11 : (s.loc i).pc = 11 → s.builds = 1 ∧ s.filled = false
-  p12 : (s.loc i).pc = 12 → s.builds = 1 ∧ (s.loc i).mine = true
-  p13 : (s.loc i).pc = 13 → s.builds = 1 ∧ s.pub = some .whole
-  p14 : (s.loc i).pc = 14 → s.builds = 1 ∧ (s.loc i).t = some .whole
-  p15 : (s.loc i).pc = 15 → s.builds = 1 ∧ (s.loc i).t = some .whole ∧ (s.loc i).w = some .whole
-  p16 : (s.loc i).pc = 16 → s.cache = some .whole ∧ (s.loc i).w = some .whole
-  p17 : (s.loc i).pc = 17 → (s.loc i).w = some .whole
+  p9 : (s.loc i).pc = 9 → (s.succ = 0 ∨ s.cache = some .whole)
+  p10 : (s.loc i).pc = 10 →
+    ((s.loc i).w = none → s.succ = 0) ∧ ((s.loc i).w ≠ none → s.cache = some .whole)
+  p11 : (s.loc i).pc = 11 → s.succ = 0
+  p12 : (s.loc i).pc = 12 → s.succ = 0 ∧ s.filled = false
+  p13 : (s.loc i).pc = 13 → s.succ = 0 ∧ (s.loc i).mine = true
+  p14 : (s.loc i).pc = 14 → s.succ = 1 ∧ s.pub = some .whole
+  p15 : (s.loc i).pc = 15 → s.succ = 1 ∧ (s.loc i).t = some .whole
+  p16 : (s.loc i).pc = 16 → s.succ = 1 ∧ (s.loc i).t = some .whole ∧ (s.loc i).w = some .whole
+  p17 : ((s.loc i).pc = 17 ∨ (s.loc i).pc = 18) → s.cache = some .whole ∧ (s.loc i).w = some .whole
+  p19 : ((s.loc i).pc = 19 ∨ (s.loc i).pc = 22) → (s.loc i).w = some .whole
+  /-- a failed build leaves nothing behind -/
+  p20 : (s.loc i).pc = 20 → s.succ = 0
+  /-- the `except` clause is only ever reached through an injected failure -/
+  e1 : ((s.loc i).pc = 20 ∨ (s.loc i).pc = 21 ∨ (s.loc i).resp = some .error) → HasFailure c
+  e2 : ((s.loc i).pc = 12 ∨ (s.loc i).pc = 13) → (s.loc i).failing ≠ .ok → HasFailure c
+  /-- without failures every started build is the one in progress or has succeeded -/
+  n1 : held (s.loc i).pc → (s.loc i).pc ≠ 12 → (s.loc i).pc ≠ 13 → (HasFailure c ∨ s.builds = s.succ)
+  n2 : ((s.loc i).pc = 12 ∨ (s.loc i).pc = 13) → (HasFailure c ∨ s.builds = s.succ + 1)
 
-structure GInv (s : State) : Prop where
+structure GInv (c : Cfg) (s : State) : Prop where
   cache_ok : okv s.cache
   pub_ok : okv s.pub
-  /-- nothing is visible before the first build has started -/
-  b0 : s.builds = 0 → s.pub = none ∧ s.cache = none ∧ s.filled = false
-  b1 : s.builds ≤ 1
-  /-- with the lock free, either nothing was built yet or the cache is filled -/
-  free : s.lock = none → (s.builds = 0 ∨ s.cache = some .whole)
-  thr : ∀ i, TInv s i
+  /-- nothing is visible before a build has succeeded -/
+  b0 : s.succ = 0 → s.pub = none ∧ s.cache = none
+  /-- at most one build ever succeeds -/
+  b1 : s.succ ≤ 1
+  /-- with the lock free, either no build succeeded yet (the next requester builds) or the cache is filled -/
+  free : s.lock = none → (s.succ = 0 ∨ s.cache = some .whole)
+  nb : s.lock = none → (HasFailure c ∨ s.builds = s.succ)
+  thr : ∀ i, TInv c s i
 
-theorem ginv_init : GInv init := by
+theorem ginv_init (c : Cfg) : GInv c init := by
   constructor <;> try simp [init, okv]
-  intro i; constructor <;> simp [okv]
+  intro i; constructor <;> simp [okv, held]
 
-set_option maxHeartbeats 1000000 in
-theorem ginv_step_g0 (rs : Bool) (s : State) (i : Nat) (h : GInv s)
-    (hpc : 0 ≤ (s.loc i).pc ∧ (s.loc i).pc < 3) : GInv (step rs expectedSkeleton s i) := by
+set_option maxHeartbeats 1600000 in
+theorem ginv_step_g0 (c : Cfg) (hrs : c.resets = true) (s : State) (i : Nat) (h : GInv c s)
+    (hpc : 0 ≤ (s.loc i).pc ∧ (s.loc i).pc < 3) : GInv c (step c expectedSkeleton s i) := by
   have hi := h.thr i
-  obtain ⟨c1, c2, c3, c4, c5, c6⟩ := h
+  obtain ⟨c1, c2, c3, c4, c5, c7, c6⟩ := h
+  have hfail : c.fail s.builds ≠ .ok → HasFailure c := fun hne => ⟨s.builds, hne⟩
   unfold step
   generalize hl : s.loc i = l at *
-  obtain ⟨pc, w, t, mine, resp⟩ := l
-  obtain ⟨a1, a2, a3, a4, a5, a6, a7, a8, a9, a10, a11, a12, a13, a14, a15, a16, a17, a18, a19⟩ := hi
+  obtain ⟨pc, w, t, mine, handler, failing, resp⟩ := l
+  obtain ⟨a1, a2, a3, a4, a5, a6, a7, a8, a9, a10, a11, a12, a13, a14, a15, a16, a17, a18, a19, a20, a21, a22, a23, a24, a25⟩ := hi
   simp only at *
   match pc with
   | 0 | 1 | 2 =>
-    simp only [expectedSkeleton, List.getElem?_cons_succ, List.getElem?_cons_zero, Local.set, Local.get]
-    try split
+    simp only [expectedSkeleton, List.getElem?_cons_succ, List.getElem?_cons_zero, Local.set, Local.get, raise, hrs, List.length_cons, List.length_nil]
+    repeat' split
     all_goals
       apply GInv.mk
-      · grind [State.setLoc, okv]
-      · grind [State.setLoc, okv]
-      · grind [State.setLoc, okv]
-      · grind [State.setLoc, okv]
-      · grind [State.setLoc, okv]
+      · grind [State.setLoc, okv, held]
+      · grind [State.setLoc, okv, held]
+      · grind [State.setLoc, okv, held]
+      · grind [State.setLoc, okv, held]
+      · grind [State.setLoc, okv, held]
+      · grind [State.setLoc, okv, held]
       · intro j
         have hj := c6 j
         by_cases hji : j = i
         · subst hji
-          constructor <;> grind [State.setLoc, okv]
-        · obtain ⟨b1, b2, b3, b4, b5, b6, b7, b8, b9, b10, b11, b12, b13, b14, b15, b16, b17, b18, b19⟩ := hj
-          constructor <;> grind [State.setLoc, okv]
+          constructor <;> grind [State.setLoc, okv, held]
+        · obtain ⟨b1, b2, b3, b4, b5, b6, b7, b8, b9, b10, b11, b12, b13, b14, b15, b16, b17, b18, b19, b20, b21, b22, b23, b24, b25⟩ := hj
+          constructor <;> grind [State.setLoc, okv, held]
   | n + 3 => omega
 
-set_option maxHeartbeats 1000000 in
-theorem ginv_step_g1 (rs : Bool) (s : State) (i : Nat) (h : GInv s)
-    (hpc : 3 ≤ (s.loc i).pc ∧ (s.loc i).pc < 5) : GInv (step rs expectedSkeleton s i) := by
+set_option maxHeartbeats 1600000 in
+theorem ginv_step_g1 (c : Cfg) (hrs : c.resets = true) (s : State) (i : Nat) (h : GInv c s)
+    (hpc : 3 ≤ (s.loc i).pc ∧ (s.loc i).pc < 5) : GInv c (step c expectedSkeleton s i) := by
   have hi := h.thr i
-  obtain ⟨c1, c2, c3, c4, c5, c6⟩ := h
+  obtain ⟨c1, c2, c3, c4, c5, c7, c6⟩ := h
+  have hfail : c.fail s.builds ≠ .ok → HasFailure c := fun hne => ⟨s.builds, hne⟩
   unfold step
   generalize hl : s.loc i = l at *
-  obtain ⟨pc, w, t, mine, resp⟩ := l
-  obtain ⟨a1, a2, a3, a4, a5, a6, a7, a8, a9, a10, a11, a12, a13, a14, a15, a16, a17, a18, a19⟩ := hi
+  obtain ⟨pc, w, t, mine, handler, failing, resp⟩ := l
+  obtain ⟨a1, a2, a3, a4, a5, a6, a7, a8, a9, a10, a11, a12, a13, a14, a15, a16, a17, a18, a19, a20, a21, a22, a23, a24, a25⟩ := hi
   simp only at *
   match pc with
   | 3 | 4 =>
-    simp only [expectedSkeleton, List.getElem?_cons_succ, List.getElem?_cons_zero, Local.set, Local.get]
-    try split
+    simp only [expectedSkeleton, List.getElem?_cons_succ, List.getElem?_cons_zero, Local.set, Local.get, raise, hrs, List.length_cons, List.length_nil]
+    repeat' split
     all_goals
       apply GInv.mk
-      · grind [State.setLoc, okv]
-      · grind [State.setLoc, okv]
-      · grind [State.setLoc, okv]
-      · grind [State.setLoc, okv]
-      · grind [State.setLoc, okv]
+      · grind [State.setLoc, okv, held]
+      · grind [State.setLoc, okv, held]
+      · grind [State.setLoc, okv, held]
+      · grind [State.setLoc, okv, held]
+      · grind [State.setLoc, okv, held]
+      · grind [State.setLoc, okv, held]
       · intro j
         have hj := c6 j
         by_cases hji : j = i
         · subst hji
-          constructor <;> grind [State.setLoc, okv]
-        · obtain ⟨b1, b2, b3, b4, b5, b6, b7, b8, b9, b10, b11, b12, b13, b14, b15, b16, b17, b18, b19⟩ := hj
-          constructor <;> grind [State.setLoc, okv]
+          constructor <;> grind [State.setLoc, okv, held]
+        · obtain ⟨b1, b2, b3, b4, b5, b6, b7, b8, b9, b10, b11, b12, b13, b14, b15, b16, b17, b18, b19, b20, b21, b22, b23, b24, b25⟩ := hj
+          constructor <;> grind [State.setLoc, okv, held]
   | n + 5 => omega
   | 0 | 1 | 2 => omega
 
-set_option maxHeartbeats 1000000 in
-theorem ginv_step_g2 (rs : Bool) (s : State) (i : Nat) (h : GInv s)
-    (hpc : 5 ≤ (s.loc i).pc ∧ (s.loc i).pc < 8) : GInv (step rs expectedSkeleton s i) := by
+set_option maxHeartbeats 1600000 in
+theorem ginv_step_g2 (c : Cfg) (hrs : c.resets = true) (s : State) (i : Nat) (h : GInv c s)
+    (hpc : 5 ≤ (s.loc i).pc ∧ (s.loc i).pc < 7) : GInv c (step c expectedSkeleton s i) := by
   have hi := h.thr i
-  obtain ⟨c1, c2, c3, c4, c5, c6⟩ := h
+  obtain ⟨c1, c2, c3, c4, c5, c7, c6⟩ := h
+  have hfail : c.fail s.builds ≠ .ok → HasFailure c := fun hne => ⟨s.builds, hne⟩
   unfold step
   generalize hl : s.loc i = l at *
-  obtain ⟨pc, w, t, mine, resp⟩ := l
-  obtain ⟨a1, a2, a3, a4, a5, a6, a7, a8, a9, a10, a11, a12, a13, a14, a15, a16, a17, a18, a19⟩ := hi
+  obtain ⟨pc, w, t, mine, handler, failing, resp⟩ := l
+  obtain ⟨a1, a2, a3, a4, a5, a6, a7, a8, a9, a10, a11, a12, a13, a14, a15, a16, a17, a18, a19, a20, a21, a22, a23, a24, a25⟩ := hi
   simp only at *
   match pc with
-  | 5 | 6 | 7 =>
-    simp only [expectedSkeleton, List.getElem?_cons_succ, List.getElem?_cons_zero, Local.set, Local.get]
-    try split
+  | 5 | 6 =>
+    simp only [expectedSkeleton, List.getElem?_cons_succ, List.getElem?_cons_zero, Local.set, Local.get, raise, hrs, List.length_cons, List.length_nil]
+    repeat' split
     all_goals
       apply GInv.mk
-      · grind [State.setLoc, okv]
-      · grind [State.setLoc, okv]
-      · grind [State.setLoc, okv]
-      · grind [State.setLoc, okv]
-      · grind [State.setLoc, okv]
+      · grind [State.setLoc, okv, held]
+      · grind [State.setLoc, okv, held]
+      · grind [State.setLoc, okv, held]
+      · grind [State.setLoc, okv, held]
+      · grind [State.setLoc, okv, held]
+      · grind [State.setLoc, okv, held]
       · intro j
         have hj := c6 j
         by_cases hji : j = i
         · subst hji
-          constructor <;> grind [State.setLoc, okv]
-        · obtain ⟨b1, b2, b3, b4, b5, b6, b7, b8, b9, b10, b11, b12, b13, b14, b15, b16, b17, b18, b19⟩ := hj
-          constructor <;> grind [State.setLoc, okv]
-  | n + 8 => omega
+          constructor <;> grind [State.setLoc, okv, held]
+        · obtain ⟨b1, b2, b3, b4, b5, b6, b7, b8, b9, b10, b11, b12, b13, b14, b15, b16, b17, b18, b19, b20, b21, b22, b23, b24, b25⟩ := hj
+          constructor <;> grind [State.setLoc, okv, held]
+  | n + 7 => omega
   | 0 | 1 | 2 | 3 | 4 => omega
 
-set_option maxHeartbeats 1000000 in
-theorem ginv_step_g3 (rs : Bool) (s : State) (i : Nat) (h : GInv s)
-    (hpc : 8 ≤ (s.loc i).pc ∧ (s.loc i).pc < 10) : GInv (step rs expectedSkeleton s i) := by
+set_option maxHeartbeats 1600000 in
+theorem ginv_step_g3 (c : Cfg) (hrs : c.resets = true) (s : State) (i : Nat) (h : GInv c s)
+    (hpc : 7 ≤ (s.loc i).pc ∧ (s.loc i).pc < 9) : GInv c (step c expectedSkeleton s i) := by
   have hi := h.thr i
-  obtain ⟨c1, c2, c3, c4, c5, c6⟩ := h
+  obtain ⟨c1, c2, c3, c4, c5, c7, c6⟩ := h
+  have hfail : c.fail s.builds ≠ .ok → HasFailure c := fun hne => ⟨s.builds, hne⟩
   unfold step
   generalize hl : s.loc i = l at *
-  obtain ⟨pc, w, t, mine, resp⟩ := l
-  obtain ⟨a1, a2, a3, a4, a5, a6, a7, a8, a9, a10, a11, a12, a13, a14, a15, a16, a17, a18, a19⟩ := hi
+  obtain ⟨pc, w, t, mine, handler, failing, resp⟩ := l
+  obtain ⟨a1, a2, a3, a4, a5, a6, a7, a8, a9, a10, a11, a12, a13, a14, a15, a16, a17, a18, a19, a20, a21, a22, a23, a24, a25⟩ := hi
   simp only at *
   match pc with
-  | 8 | 9 =>
-    simp only [expectedSkeleton, List.getElem?_cons_succ, List.getElem?_cons_zero, Local.set, Local.get]
-    try split
+  | 7 | 8 =>
+    simp only [expectedSkeleton, List.getElem?_cons_succ, List.getElem?_cons_zero, Local.set, Local.get, raise, hrs, List.length_cons, List.length_nil]
+    repeat' split
     all_goals
       apply GInv.mk
-      · grind [State.setLoc, okv]
-      · grind [State.setLoc, okv]
-      · grind [State.setLoc, okv]
-      · grind [State.setLoc, okv]
-      · grind [State.setLoc, okv]
+      · grind [State.setLoc, okv, held]
+      · grind [State.setLoc, okv, held]
+      · grind [State.setLoc, okv, held]
+      · grind [State.setLoc, okv, held]
+      · grind [State.setLoc, okv, held]
+      · grind [State.setLoc, okv, held]
       · intro j
         have hj := c6 j
         by_cases hji : j = i
         · subst hji
-          constructor <;> grind [State.setLoc, okv]
-        · obtain ⟨b1, b2, b3, b4, b5, b6, b7, b8, b9, b10, b11, b12, b13, b14, b15, b16, b17, b18, b19⟩ := hj
-          constructor <;> grind [State.setLoc, okv]
-  | n + 10 => omega
-  | 0 | 1 | 2 | 3 | 4 | 5 | 6 | 7 => omega
+          constructor <;> grind [State.setLoc, okv, held]
+        · obtain ⟨b1, b2, b3, b4, b5, b6, b7, b8, b9, b10, b11, b12, b13, b14, b15, b16, b17, b18, b19, b20, b21, b22, b23, b24, b25⟩ := hj
+          constructor <;> grind [State.setLoc, okv, held]
+  | n + 9 => omega
+  | 0 | 1 | 2 | 3 | 4 | 5 | 6 => omega
 
-set_option maxHeartbeats 1000000 in
-theorem ginv_step_g4 (rs : Bool) (s : State) (i : Nat) (h : GInv s)
-    (hpc : 10 ≤ (s.loc i).pc ∧ (s.loc i).pc < 12) : GInv (step rs expectedSkeleton s i) := by
+set_option maxHeartbeats 1600000 in
+theorem ginv_step_g4 (c : Cfg) (hrs : c.resets = true) (s : State) (i : Nat) (h : GInv c s)
+    (hpc : 9 ≤ (s.loc i).pc ∧ (s.loc i).pc < 11) : GInv c (step c expectedSkeleton s i) := by
   have hi := h.thr i
-  obtain ⟨c1, c2, c3, c4, c5, c6⟩ := h
+  obtain ⟨c1, c2, c3, c4, c5, c7, c6⟩ := h
+  have hfail : c.fail s.builds ≠ .ok → HasFailure c := fun hne => ⟨s.builds, hne⟩
   unfold step
   generalize hl : s.loc i = l at *
-  obtain ⟨pc, w, t, mine, resp⟩ := l
-  obtain ⟨a1, a2, a3, a4, a5, a6, a7, a8, a9, a10, a11, a12, a13, a14, a15, a16, a17, a18, a19⟩ := hi
+  obtain ⟨pc, w, t, mine, handler, failing, resp⟩ := l
+  obtain ⟨a1, a2, a3, a4, a5, a6, a7, a8, a9, a10, a11, a12, a13, a14, a15, a16, a17, a18, a19, a20, a21, a22, a23, a24, a25⟩ := hi
   simp only at *
   match pc with
-  | 10 | 11 =>
-    simp only [expectedSkeleton, List.getElem?_cons_succ, List.getElem?_cons_zero, Local.set, Local.get]
-    try split
+  | 9 | 10 =>
+    simp only [expectedSkeleton, List.getElem?_cons_succ, List.getElem?_cons_zero, Local.set, Local.get, raise, hrs, List.length_cons, List.length_nil]
+    repeat' split
     all_goals
       apply GInv.mk
-      · grind [State.setLoc, okv]
-      · grind [State.setLoc, okv]
-      · grind [State.setLoc, okv]
-      · grind [State.setLoc, okv]
-      · grind [State.setLoc, okv]
+      · grind [State.setLoc, okv, held]
+      · grind [State.setLoc, okv, held]
+      · grind [State.setLoc, okv, held]
+      · grind [State.setLoc, okv, held]
+      · grind [State.setLoc, okv, held]
+      · grind [State.setLoc, okv, held]
       · intro j
         have hj := c6 j
         by_cases hji : j = i
         · subst hji
-          constructor <;> grind [State.setLoc, okv]
-        · obtain ⟨b1, b2, b3, b4, b5, b6, b7, b8, b9, b10, b11, b12, b13, b14, b15, b16, b17, b18, b19⟩ := hj
-          constructor <;> grind [State.setLoc, okv]
+          constructor <;> grind [State.setLoc, okv, held]
+        · obtain ⟨b1, b2, b3, b4, b5, b6, b7, b8, b9, b10, b11, b12, b13, b14, b15, b16, b17, b18, b19, b20, b21, b22, b23, b24, b25⟩ := hj
+          constructor <;> grind [State.setLoc, okv, held]
+  | n + 11 => omega
+  | 0 | 1 | 2 | 3 | 4 | 5 | 6 | 7 | 8 => omega
+
+set_option maxHeartbeats 1600000 in
+theorem ginv_step_g5 (c : Cfg) (hrs : c.resets = true) (s : State) (i : Nat) (h : GInv c s)
+    (hpc : 11 ≤ (s.loc i).pc ∧ (s.loc i).pc < 12) : GInv c (step c expectedSkeleton s i) := by
+  have hi := h.thr i
+  obtain ⟨c1, c2, c3, c4, c5, c7, c6⟩ := h
+  have hfail : c.fail s.builds ≠ .ok → HasFailure c := fun hne => ⟨s.builds, hne⟩
+  unfold step
+  generalize hl : s.loc i = l at *
+  obtain ⟨pc, w, t, mine, handler, failing, resp⟩ := l
+  obtain ⟨a1, a2, a3, a4, a5, a6, a7, a8, a9, a10, a11, a12, a13, a14, a15, a16, a17, a18, a19, a20, a21, a22, a23, a24, a25⟩ := hi
+  simp only at *
+  match pc with
+  | 11 =>
+    simp only [expectedSkeleton, List.getElem?_cons_succ, List.getElem?_cons_zero, Local.set, Local.get, raise, hrs, List.length_cons, List.length_nil]
+    repeat' split
+    all_goals
+      apply GInv.mk
+      · grind [State.setLoc, okv, held]
+      · grind [State.setLoc, okv, held]
+      · grind [State.setLoc, okv, held]
+      · grind [State.setLoc, okv, held]
+      · grind [State.setLoc, okv, held]
+      · grind [State.setLoc, okv, held]
+      · intro j
+        have hj := c6 j
+        by_cases hji : j = i
+        · subst hji
+          constructor <;> grind [State.setLoc, okv, held]
+        · obtain ⟨b1, b2, b3, b4, b5, b6, b7, b8, b9, b10, b11, b12, b13, b14, b15, b16, b17, b18, b19, b20, b21, b22, b23, b24, b25⟩ := hj
+          constructor <;> grind [State.setLoc, okv, held]
   | n + 12 => omega
-  | 0 | 1 | 2 | 3 | 4 | 5 | 6 | 7 | 8 | 9 => omega
+  | 0 | 1 | 2 | 3 | 4 | 5 | 6 | 7 | 8 | 9 | 10 => omega
 
-set_option maxHeartbeats 1000000 in
-theorem ginv_step_g5 (rs : Bool) (s : State) (i : Nat) (h : GInv s)
-    (hpc : 12 ≤ (s.loc i).pc ∧ (s.loc i).pc < 14) : GInv (step rs expectedSkeleton s i) := by
+set_option maxHeartbeats 1600000 in
+theorem ginv_step_g6 (c : Cfg) (hrs : c.resets = true) (s : State) (i : Nat) (h : GInv c s)
+    (hpc : 12 ≤ (s.loc i).pc ∧ (s.loc i).pc < 13) : GInv c (step c expectedSkeleton s i) := by
   have hi := h.thr i
-  obtain ⟨c1, c2, c3, c4, c5, c6⟩ := h
+  obtain ⟨c1, c2, c3, c4, c5, c7, c6⟩ := h
+  have hfail : c.fail s.builds ≠ .ok → HasFailure c := fun hne => ⟨s.builds, hne⟩
   unfold step
   generalize hl : s.loc i = l at *
-  obtain ⟨pc, w, t, mine, resp⟩ := l
-  obtain ⟨a1, a2, a3, a4, a5, a6, a7, a8, a9, a10, a11, a12, a13, a14, a15, a16, a17, a18, a19⟩ := hi
+  obtain ⟨pc, w, t, mine, handler, failing, resp⟩ := l
+  obtain ⟨a1, a2, a3, a4, a5, a6, a7, a8, a9, a10, a11, a12, a13, a14, a15, a16, a17, a18, a19, a20, a21, a22, a23, a24, a25⟩ := hi
   simp only at *
   match pc with
-  | 12 | 13 =>
-    simp only [expectedSkeleton, List.getElem?_cons_succ, List.getElem?_cons_zero, Local.set, Local.get]
-    try split
+  | 12 =>
+    simp only [expectedSkeleton, List.getElem?_cons_succ, List.getElem?_cons_zero, Local.set, Local.get, raise, hrs, List.length_cons, List.length_nil]
+    repeat' split
     all_goals
       apply GInv.mk
-      · grind [State.setLoc, okv]
-      · grind [State.setLoc, okv]
-      · grind [State.setLoc, okv]
-      · grind [State.setLoc, okv]
-      · grind [State.setLoc, okv]
+      · grind [State.setLoc, okv, held]
+      · grind [State.setLoc, okv, held]
+      · grind [State.setLoc, okv, held]
+      · grind [State.setLoc, okv, held]
+      · grind [State.setLoc, okv, held]
+      · grind [State.setLoc, okv, held]
       · intro j
         have hj := c6 j
         by_cases hji : j = i
         · subst hji
-          constructor <;> grind [State.setLoc, okv]
-        · obtain ⟨b1, b2, b3, b4, b5, b6, b7, b8, b9, b10, b11, b12, b13, b14, b15, b16, b17, b18, b19⟩ := hj
-          constructor <;> grind [State.setLoc, okv]
-  | n + 14 => omega
+          constructor <;> grind [State.setLoc, okv, held]
+        · obtain ⟨b1, b2, b3, b4, b5, b6, b7, b8, b9, b10, b11, b12, b13, b14, b15, b16, b17, b18, b19, b20, b21, b22, b23, b24, b25⟩ := hj
+          constructor <;> grind [State.setLoc, okv, held]
+  | n + 13 => omega
   | 0 | 1 | 2 | 3 | 4 | 5 | 6 | 7 | 8 | 9 | 10 | 11 => omega
 
-set_option maxHeartbeats 1000000 in
-theorem ginv_step_g6 (rs : Bool) (s : State) (i : Nat) (h : GInv s)
-    (hpc : 14 ≤ (s.loc i).pc ∧ (s.loc i).pc < 16) : GInv (step rs expectedSkeleton s i) := by
+set_option maxHeartbeats 1600000 in
+theorem ginv_step_g7 (c : Cfg) (hrs : c.resets = true) (s : State) (i : Nat) (h : GInv c s)
+    (hpc : 13 ≤ (s.loc i).pc ∧ (s.loc i).pc < 14) : GInv c (step c expectedSkeleton s i) := by
   have hi := h.thr i
-  obtain ⟨c1, c2, c3, c4, c5, c6⟩ := h
+  obtain ⟨c1, c2, c3, c4, c5, c7, c6⟩ := h
+  have hfail : c.fail s.builds ≠ .ok → HasFailure c := fun hne => ⟨s.builds, hne⟩
   unfold step
   generalize hl : s.loc i = l at *
-  obtain ⟨pc, w, t, mine, resp⟩ := l
-  obtain ⟨a1, a2, a3, a4, a5, a6, a7, a8, a9, a10, a11, a12, a13, a14, a15, a16, a17, a18, a19⟩ := hi
+  obtain ⟨pc, w, t, mine, handler, failing, resp⟩ := l
+  obtain ⟨a1, a2, a3, a4, a5, a6, a7, a8, a9, a10, a11, a12, a13, a14, a15, a16, a17, a18, a19, a20, a21, a22, a23, a24, a25⟩ := hi
+  simp only at *
+  match pc with
+  | 13 =>
+    simp only [expectedSkeleton, List.getElem?_cons_succ, List.getElem?_cons_zero, Local.set, Local.get, raise, hrs, List.length_cons, List.length_nil]
+    repeat' split
+    all_goals
+      apply GInv.mk
+      · grind [State.setLoc, okv, held]
+      · grind [State.setLoc, okv, held]
+      · grind [State.setLoc, okv, held]
+      · grind [State.setLoc, okv, held]
+      · grind [State.setLoc, okv, held]
+      · grind [State.setLoc, okv, held]
+      · intro j
+        have hj := c6 j
+        by_cases hji : j = i
+        · subst hji
+          constructor <;> grind [State.setLoc, okv, held]
+        · obtain ⟨b1, b2, b3, b4, b5, b6, b7, b8, b9, b10, b11, b12, b13, b14, b15, b16, b17, b18, b19, b20, b21, b22, b23, b24, b25⟩ := hj
+          constructor <;> grind [State.setLoc, okv, held]
+  | n + 14 => omega
+  | 0 | 1 | 2 | 3 | 4 | 5 | 6 | 7 | 8 | 9 | 10 | 11 | 12 => omega
+
+set_option maxHeartbeats 1600000 in
+theorem ginv_step_g8 (c : Cfg) (hrs : c.resets = true) (s : State) (i : Nat) (h : GInv c s)
+    (hpc : 14 ≤ (s.loc i).pc ∧ (s.loc i).pc < 16) : GInv c (step c expectedSkeleton s i) := by
+  have hi := h.thr i
+  obtain ⟨c1, c2, c3, c4, c5, c7, c6⟩ := h
+  have hfail : c.fail s.builds ≠ .ok → HasFailure c := fun hne => ⟨s.builds, hne⟩
+  unfold step
+  generalize hl : s.loc i = l at *
+  obtain ⟨pc, w, t, mine, handler, failing, resp⟩ := l
+  obtain ⟨a1, a2, a3, a4, a5, a6, a7, a8, a9, a10, a11, a12, a13, a14, a15, a16, a17, a18, a19, a20, a21, a22, a23, a24, a25⟩ := hi
   simp only at *
   match pc with
   | 14 | 15 =>
-    simp only [expectedSkeleton, List.getElem?_cons_succ, List.getElem?_cons_zero, Local.set, Local.get]
-    try split
+    simp only [expectedSkeleton, List.getElem?_cons_succ, List.getElem?_cons_zero, Local.set, Local.get, raise, hrs, List.length_cons, List.length_nil]
+    repeat' split
     all_goals
       apply GInv.mk
-      · grind [State.setLoc, okv]
-      · grind [State.setLoc, okv]
-      · grind [State.setLoc, okv]
-      · grind [State.setLoc, okv]
-      · grind [State.setLoc, okv]
+      · grind [State.setLoc, okv, held]
+      · grind [State.setLoc, okv, held]
+      · grind [State.setLoc, okv, held]
+      · grind [State.setLoc, okv, held]
+      · grind [State.setLoc, okv, held]
+      · grind [State.setLoc, okv, held]
       · intro j
         have hj := c6 j
         by_cases hji : j = i
         · subst hji
-          constructor <;> grind [State.setLoc, okv]
-        · obtain ⟨b1, b2, b3, b4, b5, b6, b7, b8, b9, b10, b11, b12, b13, b14, b15, b16, b17, b18, b19⟩ := hj
-          constructor <;> grind [State.setLoc, okv]
+          constructor <;> grind [State.setLoc, okv, held]
+        · obtain ⟨b1, b2, b3, b4, b5, b6, b7, b8, b9, b10, b11, b12, b13, b14, b15, b16, b17, b18, b19, b20, b21, b22, b23, b24, b25⟩ := hj
+          constructor <;> grind [State.setLoc, okv, held]
   | n + 16 => omega
   | 0 | 1 | 2 | 3 | 4 | 5 | 6 | 7 | 8 | 9 | 10 | 11 | 12 | 13 => omega
 
-set_option maxHeartbeats 1000000 in
-theorem ginv_step_g7 (rs : Bool) (s : State) (i : Nat) (h : GInv s)
-    (hpc : 16 ≤ (s.loc i).pc ∧ (s.loc i).pc < 18) : GInv (step rs expectedSkeleton s i) := by
+set_option maxHeartbeats 1600000 in
+theorem ginv_step_g9 (c : Cfg) (hrs : c.resets = true) (s : State) (i : Nat) (h : GInv c s)
+    (hpc : 16 ≤ (s.loc i).pc ∧ (s.loc i).pc < 18) : GInv c (step c expectedSkeleton s i) := by
   have hi := h.thr i
-  obtain ⟨c1, c2, c3, c4, c5, c6⟩ := h
+  obtain ⟨c1, c2, c3, c4, c5, c7, c6⟩ := h
+  have hfail : c.fail s.builds ≠ .ok → HasFailure c := fun hne => ⟨s.builds, hne⟩
   unfold step
   generalize hl : s.loc i = l at *
-  obtain ⟨pc, w, t, mine, resp⟩ := l
-  obtain ⟨a1, a2, a3, a4, a5, a6, a7, a8, a9, a10, a11, a12, a13, a14, a15, a16, a17, a18, a19⟩ := hi
+  obtain ⟨pc, w, t, mine, handler, failing, resp⟩ := l
+  obtain ⟨a1, a2, a3, a4, a5, a6, a7, a8, a9, a10, a11, a12, a13, a14, a15, a16, a17, a18, a19, a20, a21, a22, a23, a24, a25⟩ := hi
   simp only at *
   match pc with
   | 16 | 17 =>
-    simp only [expectedSkeleton, List.getElem?_cons_succ, List.getElem?_cons_zero, Local.set, Local.get, List.length_cons, List.length_nil]
-    try split
+    simp only [expectedSkeleton, List.getElem?_cons_succ, List.getElem?_cons_zero, Local.set, Local.get, raise, hrs, List.length_cons, List.length_nil]
+    repeat' split
     all_goals
       apply GInv.mk
-      · grind [State.setLoc, okv]
-      · grind [State.setLoc, okv]
-      · grind [State.setLoc, okv]
-      · grind [State.setLoc, okv]
-      · grind [State.setLoc, okv]
+      · grind [State.setLoc, okv, held]
+      · grind [State.setLoc, okv, held]
+      · grind [State.setLoc, okv, held]
+      · grind [State.setLoc, okv, held]
+      · grind [State.setLoc, okv, held]
+      · grind [State.setLoc, okv, held]
       · intro j
         have hj := c6 j
         by_cases hji : j = i
         · subst hji
-          constructor <;> grind [State.setLoc, okv]
-        · obtain ⟨b1, b2, b3, b4, b5, b6, b7, b8, b9, b10, b11, b12, b13, b14, b15, b16, b17, b18, b19⟩ := hj
-          constructor <;> grind [State.setLoc, okv]
+          constructor <;> grind [State.setLoc, okv, held]
+        · obtain ⟨b1, b2, b3, b4, b5, b6, b7, b8, b9, b10, b11, b12, b13, b14, b15, b16, b17, b18, b19, b20, b21, b22, b23, b24, b25⟩ := hj
+          constructor <;> grind [State.setLoc, okv, held]
   | n + 18 => omega
   | 0 | 1 | 2 | 3 | 4 | 5 | 6 | 7 | 8 | 9 | 10 | 11 | 12 | 13 | 14 | 15 => omega
 
-/-- the invariant is preserved by every step of every thread -/
-theorem ginv_step (rs : Bool) (s : State) (i : Nat) (h : GInv s) : GInv (step rs expectedSkeleton s i) := by
-  by_cases h18 : (s.loc i).pc < 18
+set_option maxHeartbeats 1600000 in
+theorem ginv_step_g10 (c : Cfg) (hrs : c.resets = true) (s : State) (i : Nat) (h : GInv c s)
+    (hpc : 18 ≤ (s.loc i).pc ∧ (s.loc i).pc < 20) : GInv c (step c expectedSkeleton s i) := by
+  have hi := h.thr i
+  obtain ⟨c1, c2, c3, c4, c5, c7, c6⟩ := h
+  have hfail : c.fail s.builds ≠ .ok → HasFailure c := fun hne => ⟨s.builds, hne⟩
+  unfold step
+  generalize hl : s.loc i = l at *
+  obtain ⟨pc, w, t, mine, handler, failing, resp⟩ := l
+  obtain ⟨a1, a2, a3, a4, a5, a6, a7, a8, a9, a10, a11, a12, a13, a14, a15, a16, a17, a18, a19, a20, a21, a22, a23, a24, a25⟩ := hi
+  simp only at *
+  match pc with
+  | 18 | 19 =>
+    simp only [expectedSkeleton, List.getElem?_cons_succ, List.getElem?_cons_zero, Local.set, Local.get, raise, hrs, List.length_cons, List.length_nil]
+    repeat' split
+    all_goals
+      apply GInv.mk
+      · grind [State.setLoc, okv, held]
+      · grind [State.setLoc, okv, held]
+      · grind [State.setLoc, okv, held]
+      · grind [State.setLoc, okv, held]
+      · grind [State.setLoc, okv, held]
+      · grind [State.setLoc, okv, held]
+      · intro j
+        have hj := c6 j
+        by_cases hji : j = i
+        · subst hji
+          constructor <;> grind [State.setLoc, okv, held]
+        · obtain ⟨b1, b2, b3, b4, b5, b6, b7, b8, b9, b10, b11, b12, b13, b14, b15, b16, b17, b18, b19, b20, b21, b22, b23, b24, b25⟩ := hj
+          constructor <;> grind [State.setLoc, okv, held]
+  | n + 20 => omega
+  | 0 | 1 | 2 | 3 | 4 | 5 | 6 | 7 | 8 | 9 | 10 | 11 | 12 | 13 | 14 | 15 | 16 | 17 => omega
+
+set_option maxHeartbeats 1600000 in
+theorem ginv_step_g11 (c : Cfg) (hrs : c.resets = true) (s : State) (i : Nat) (h : GInv c s)
+    (hpc : 20 ≤ (s.loc i).pc ∧ (s.loc i).pc < 22) : GInv c (step c expectedSkeleton s i) := by
+  have hi := h.thr i
+  obtain ⟨c1, c2, c3, c4, c5, c7, c6⟩ := h
+  have hfail : c.fail s.builds ≠ .ok → HasFailure c := fun hne => ⟨s.builds, hne⟩
+  unfold step
+  generalize hl : s.loc i = l at *
+  obtain ⟨pc, w, t, mine, handler, failing, resp⟩ := l
+  obtain ⟨a1, a2, a3, a4, a5, a6, a7, a8, a9, a10, a11, a12, a13, a14, a15, a16, a17, a18, a19, a20, a21, a22, a23, a24, a25⟩ := hi
+  simp only at *
+  match pc with
+  | 20 | 21 =>
+    simp only [expectedSkeleton, List.getElem?_cons_succ, List.getElem?_cons_zero, Local.set, Local.get, raise, hrs, List.length_cons, List.length_nil]
+    repeat' split
+    all_goals
+      apply GInv.mk
+      · grind [State.setLoc, okv, held]
+      · grind [State.setLoc, okv, held]
+      · grind [State.setLoc, okv, held]
+      · grind [State.setLoc, okv, held]
+      · grind [State.setLoc, okv, held]
+      · grind [State.setLoc, okv, held]
+      · intro j
+        have hj := c6 j
+        by_cases hji : j = i
+        · subst hji
+          constructor <;> grind [State.setLoc, okv, held]
+        · obtain ⟨b1, b2, b3, b4, b5, b6, b7, b8, b9, b10, b11, b12, b13, b14, b15, b16, b17, b18, b19, b20, b21, b22, b23, b24, b25⟩ := hj
+          constructor <;> grind [State.setLoc, okv, held]
+  | n + 22 => omega
+  | 0 | 1 | 2 | 3 | 4 | 5 | 6 | 7 | 8 | 9 | 10 | 11 | 12 | 13 | 14 | 15 | 16 | 17 | 18 | 19 => omega
+
+set_option maxHeartbeats 1600000 in
+theorem ginv_step_g12 (c : Cfg) (hrs : c.resets = true) (s : State) (i : Nat) (h : GInv c s)
+    (hpc : 22 ≤ (s.loc i).pc ∧ (s.loc i).pc < 23) : GInv c (step c expectedSkeleton s i) := by
+  have hi := h.thr i
+  obtain ⟨c1, c2, c3, c4, c5, c7, c6⟩ := h
+  have hfail : c.fail s.builds ≠ .ok → HasFailure c := fun hne => ⟨s.builds, hne⟩
+  unfold step
+  generalize hl : s.loc i = l at *
+  obtain ⟨pc, w, t, mine, handler, failing, resp⟩ := l
+  obtain ⟨a1, a2, a3, a4, a5, a6, a7, a8, a9, a10, a11, a12, a13, a14, a15, a16, a17, a18, a19, a20, a21, a22, a23, a24, a25⟩ := hi
+  simp only at *
+  match pc with
+  | 22 =>
+    simp only [expectedSkeleton, List.getElem?_cons_succ, List.getElem?_cons_zero, Local.set, Local.get, raise, hrs, List.length_cons, List.length_nil]
+    repeat' split
+    all_goals
+      apply GInv.mk
+      · grind [State.setLoc, okv, held]
+      · grind [State.setLoc, okv, held]
+      · grind [State.setLoc, okv, held]
+      · grind [State.setLoc, okv, held]
+      · grind [State.setLoc, okv, held]
+      · grind [State.setLoc, okv, held]
+      · intro j
+        have hj := c6 j
+        by_cases hji : j = i
+        · subst hji
+          constructor <;> grind [State.setLoc, okv, held]
+        · obtain ⟨b1, b2, b3, b4, b5, b6, b7, b8, b9, b10, b11, b12, b13, b14, b15, b16, b17, b18, b19, b20, b21, b22, b23, b24, b25⟩ := hj
+          constructor <;> grind [State.setLoc, okv, held]
+  | n + 23 => omega
+  | 0 | 1 | 2 | 3 | 4 | 5 | 6 | 7 | 8 | 9 | 10 | 11 | 12 | 13 | 14 | 15 | 16 | 17 | 18 | 19 | 20 | 21 => omega
+
+/-- the invariant is preserved by every step of every thread, whatever the build outcomes -/
+theorem ginv_step (c : Cfg) (hrs : c.resets = true) (s : State) (i : Nat) (h : GInv c s) :
+    GInv c (step c expectedSkeleton s i) := by
+  by_cases h23 : (s.loc i).pc < 23
   · rcases Nat.lt_or_ge (s.loc i).pc 3 with h3 | h3
-    · exact ginv_step_g0 rs s i h (by omega)
+    · exact ginv_step_g0 c hrs s i h (by omega)
     rcases Nat.lt_or_ge (s.loc i).pc 5 with h5 | h5
-    · exact ginv_step_g1 rs s i h (by omega)
-    rcases Nat.lt_or_ge (s.loc i).pc 8 with h8 | h8
-    · exact ginv_step_g2 rs s i h (by omega)
-    rcases Nat.lt_or_ge (s.loc i).pc 10 with h10 | h10
-    · exact ginv_step_g3 rs s i h (by omega)
+    · exact ginv_step_g1 c hrs s i h (by omega)
+    rcases Nat.lt_or_ge (s.loc i).pc 7 with h7 | h7
+    · exact ginv_step_g2 c hrs s i h (by omega)
+    rcases Nat.lt_or_ge (s.loc i).pc 9 with h9 | h9
+    · exact ginv_step_g3 c hrs s i h (by omega)
+    rcases Nat.lt_or_ge (s.loc i).pc 11 with h11 | h11
+    · exact ginv_step_g4 c hrs s i h (by omega)
     rcases Nat.lt_or_ge (s.loc i).pc 12 with h12 | h12
-    · exact ginv_step_g4 rs s i h (by omega)
+    · exact ginv_step_g5 c hrs s i h (by omega)
+    rcases Nat.lt_or_ge (s.loc i).pc 13 with h13 | h13
+    · exact ginv_step_g6 c hrs s i h (by omega)
     rcases Nat.lt_or_ge (s.loc i).pc 14 with h14 | h14
-    · exact ginv_step_g5 rs s i h (by omega)
+    · exact ginv_step_g7 c hrs s i h (by omega)
     rcases Nat.lt_or_ge (s.loc i).pc 16 with h16 | h16
-    · exact ginv_step_g6 rs s i h (by omega)
+    · exact ginv_step_g8 c hrs s i h (by omega)
     rcases Nat.lt_or_ge (s.loc i).pc 18 with h18 | h18
-    · exact ginv_step_g7 rs s i h (by omega)
+    · exact ginv_step_g9 c hrs s i h (by omega)
+    rcases Nat.lt_or_ge (s.loc i).pc 20 with h20 | h20
+    · exact ginv_step_g10 c hrs s i h (by omega)
+    rcases Nat.lt_or_ge (s.loc i).pc 22 with h22 | h22
+    · exact ginv_step_g11 c hrs s i h (by omega)
+    rcases Nat.lt_or_ge (s.loc i).pc 23 with h23 | h23
+    · exact ginv_step_g12 c hrs s i h (by omega)
     omega
   · have hnone : expectedSkeleton[(s.loc i).pc]? = none := by
       apply List.getElem?_eq_none; simp [expectedSkeleton]; omega
     unfold step; simp only [hnone]; exact h
 
-theorem ginv_run (rs : Bool) (sched : List Nat) :
-    ∀ s, GInv s → GInv (run rs expectedSkeleton s sched) := by
+theorem ginv_run (c : Cfg) (hrs : c.resets = true) (sched : List Nat) :
+    ∀ s, GInv c s → GInv c (run c expectedSkeleton s sched) := by
   induction sched with
   | nil => intro s h; exact h
-  | cons i rest ih => intro s h; exact ih _ (ginv_step rs s i h)
+  | cons i rest ih => intro s h; exact ih _ (ginv_step c hrs s i h)
 
-theorem ginv_reachable (rs : Bool) (sched : List Nat) : GInv (run rs expectedSkeleton init sched) :=
-  ginv_run rs sched init ginv_init
+theorem ginv_reachable (c : Cfg) (hrs : c.resets = true) (sched : List Nat) :
+    GInv c (run c expectedSkeleton init sched) :=
+  ginv_run c hrs sched init (ginv_init c)
 
 /-! ### consequences -/
 
 /-- a filled cache is never emptied or replaced -/
-theorem cache_stays_step (rs : Bool) (s : State) (i : Nat) (h : GInv s) (hc : s.cache = some .whole) :
-    (step rs expectedSkeleton s i).cache = some .whole := by
+theorem cache_stays_step (c : Cfg) (s : State) (i : Nat) (h : GInv c s) (hc : s.cache = some .whole) :
+    (step c expectedSkeleton s i).cache = some .whole := by
   have hi := h.thr i
   unfold step
   generalize hl : s.loc i = l at *
-  obtain ⟨pc, w, t, mine, resp⟩ := l
-  obtain ⟨a1, a2, a3, a4, a5, a6, a7, a8, a9, a10, a11, a12, a13, a14, a15, a16, a17, a18, a19⟩ := hi
+  obtain ⟨pc, w, t, mine, handler, failing, resp⟩ := l
+  obtain ⟨a1, a2, a3, a4, a5, a6, a7, a8, a9, a10, a11, a12, a13, a14, a15, a16, a17, a18, a19, a20, a21, a22, a23, a24, a25⟩ := hi
   simp only at *
   match pc with
-  | 0 | 1 | 2 | 3 | 4 | 5 | 6 | 7 | 8 | 9 | 10 | 11 | 12 | 13 | 14 | 15 | 16 | 17 =>
-    simp only [expectedSkeleton, List.getElem?_cons_succ, List.getElem?_cons_zero, Local.set, Local.get]
-    try split
+  | 0 | 1 | 2 | 3 | 4 | 5 | 6 | 7 | 8 | 9 | 10 | 11 | 12 | 13 | 14 | 15 | 16 | 17 | 18 | 19 | 20 | 21 | 22 =>
+    simp only [expectedSkeleton, List.getElem?_cons_succ, List.getElem?_cons_zero, Local.set, Local.get, raise]
+    repeat' split
     all_goals grind [State.setLoc, okv]
-  | n + 18 =>
-    have : expectedSkeleton[n + 18]? = none := by simp [expectedSkeleton]
+  | n + 23 =>
+    have : expectedSkeleton[n + 23]? = none := by simp [expectedSkeleton]
     simp only [this]; exact hc
 
-theorem cache_stays_run (rs : Bool) (sched : List Nat) :
-    ∀ s, GInv s → s.cache = some .whole → (run rs expectedSkeleton s sched).cache = some .whole := by
+theorem cache_stays_run (c : Cfg) (hrs : c.resets = true) (sched : List Nat) :
+    ∀ s, GInv c s → s.cache = some .whole → (run c expectedSkeleton s sched).cache = some .whole := by
   induction sched with
   | nil => intro s _ hc; exact hc
   | cons i rest ih =>
     intro s h hc
-    exact ih _ (ginv_step rs s i h) (cache_stays_step rs s i h hc)
+    exact ih _ (ginv_step c hrs s i h) (cache_stays_step c s i h hc)
 
-/-- at most one thread is between `acquire` and `release` -/
-theorem mutex_of_ginv (s : State) (h : GInv s) (i j : Nat)
-    (hi : 8 ≤ (s.loc i).pc ∧ (s.loc i).pc ≤ 16) (hj : 8 ≤ (s.loc j).pc ∧ (s.loc j).pc ≤ 16) : i = j := by
-  have h1 := (h.thr i).crit hi.1 hi.2
-  have h2 := (h.thr j).crit hj.1 hj.2
+/-- at most one thread is between `acquire` and its `release` -/
+theorem mutex_of_ginv (c : Cfg) (s : State) (h : GInv c s) (i j : Nat)
+    (hi : held (s.loc i).pc) (hj : held (s.loc j).pc) : i = j := by
+  have h1 := (h.thr i).crit hi
+  have h2 := (h.thr j).crit hj
   rw [h1] at h2
   exact Option.some.inj h2
 
+/-- without injected failures `build_interface_document` is started at most once -/
+theorem builds_le_one (c : Cfg) (s : State) (h : GInv c s) (hc : ¬ HasFailure c) : s.builds ≤ 1 := by
+  have hb := h.b1
+  cases hl : s.lock with
+  | none => rcases h.nb hl with h1 | h1
+            · exact absurd h1 hc
+            · omega
+  | some j =>
+    have hh := (h.thr j).crit' hl
+    by_cases h12 : (s.loc j).pc = 12 ∨ (s.loc j).pc = 13
+    · rcases (h.thr j).n2 h12 with h1 | h1
+      · exact absurd h1 hc
+      · have := (h.thr j).p12; have := (h.thr j).p13
+        rcases h12 with h12 | h12 <;> simp_all <;> omega
+    · rcases (h.thr j).n1 hh (by omega) (by omega) with h1 | h1
+      · exact absurd h1 hc
+      · omega
+
+/-- a thread that has answered does not hold the lock -/
+theorem finished_not_holding (c : Cfg) (s : State) (h : GInv c s) (i : Nat) (hr : (s.loc i).resp ≠ none) :
+    s.lock ≠ some i := by
+  intro hl
+  have hh := (h.thr i).crit' hl
+  have hp := (h.thr i).resp_iff.mpr hr
+  unfold held at hh
+  omega
+
 /-- a thread that has not answered is never stuck for good: it can move itself, or the holder of
-    the lock it waits for can -/
-theorem not_all_stuck (s : State) (h : GInv s) (i : Nat) (hi : (s.loc i).pc < 18) :
+    the lock it waits for can — also after failed builds -/
+theorem not_all_stuck (c : Cfg) (s : State) (h : GInv c s) (i : Nat) (hi : (s.loc i).pc < 23) :
     ∃ j, stuck expectedSkeleton s j = false := by
   by_cases hs : stuck expectedSkeleton s i = false
   · exact ⟨i, hs⟩
-  · -- `i` waits at `acquire`; the lock is held by some `j`, and `j` is inside the locked region
-    have hlock : ∃ j, s.lock = some j := by
+  · have hlock : ∃ j, s.lock = some j := by
       unfold stuck at hs
       generalize hpc : (s.loc i).pc = pc at *
       match pc with
-      | 0 | 1 | 2 | 3 | 4 | 5 | 6 | 8 | 9 | 10 | 11 | 12 | 13 | 14 | 15 | 16 | 17 =>
+      | 0 | 1 | 2 | 3 | 4 | 5 | 6 | 7 | 9 | 10 | 11 | 12 | 13 | 14 | 15 | 16 | 17 | 18 | 19 | 20 | 21 | 22 =>
         simp [expectedSkeleton] at hs
-      | 7 =>
+      | 8 =>
         simp only [expectedSkeleton, List.getElem?_cons_succ, List.getElem?_cons_zero] at hs
         cases hk : s.lock with
         | none => simp [hk] at hs
         | some j => exact ⟨j, rfl⟩
-      | n + 18 => omega
+      | n + 23 => omega
     obtain ⟨j, hj⟩ := hlock
     have hc := (h.thr j).crit' hj
     refine ⟨j, ?_⟩
     unfold stuck
+    unfold held at hc
     generalize hpc : (s.loc j).pc = pc at *
     match pc with
-    | 8 | 9 | 10 | 11 | 12 | 13 | 14 | 15 | 16 => simp [expectedSkeleton]
-    | 0 | 1 | 2 | 3 | 4 | 5 | 6 | 7 => omega
-    | n + 17 => omega
+    | 9 | 10 | 11 | 12 | 13 | 14 | 15 | 16 | 17 | 18 | 20 => simp [expectedSkeleton]
+    | 0 | 1 | 2 | 3 | 4 | 5 | 6 | 7 | 8 | 19 => omega
+    | n + 21 => omega
 
-/-- every step that is not a skip moves its thread strictly forward (so a thread takes at most
-    18 effective steps) -/
-theorem progress_step (rs : Bool) (s : State) (i : Nat)
+/-- every step that is not a skip moves its thread strictly forward (a requester takes at most 23
+    effective steps, whatever fails) -/
+theorem progress_step (c : Cfg) (s : State) (i : Nat) (h : GInv c s)
     (hs : stuck expectedSkeleton s i = false) :
-    (s.loc i).pc < ((step rs expectedSkeleton s i).loc i).pc := by
+    (s.loc i).pc < ((step c expectedSkeleton s i).loc i).pc := by
+  have hi := (h.thr i).hnd
   unfold stuck at hs
   unfold step
   generalize hl : s.loc i = l at *
-  obtain ⟨pc, w, t, mine, resp⟩ := l
+  obtain ⟨pc, w, t, mine, handler, failing, resp⟩ := l
   simp only at *
   match pc with
-  | 0 | 1 | 2 | 3 | 4 | 5 | 6 | 8 | 9 | 10 | 11 | 12 | 13 | 14 | 15 | 16 | 17 =>
+  | 0 | 1 | 2 | 3 | 4 | 5 | 6 | 7 | 9 | 10 | 12 | 14 | 15 | 16 | 17 | 18 | 19 | 20 | 21 | 22 =>
     simp only [expectedSkeleton, List.getElem?_cons_succ, List.getElem?_cons_zero, Local.set, Local.get,
       List.length_cons, List.length_nil]
     try split
     all_goals simp [State.setLoc]
     all_goals first | omega | grind
-  | 7 =>
+  | 11 | 13 =>
+    have hh : handler = some 20 := hi (by omega) (by omega)
+    subst hh
+    simp only [expectedSkeleton, List.getElem?_cons_succ, List.getElem?_cons_zero, raise]
+    repeat' split
+    all_goals simp [State.setLoc]
+  | 8 =>
     simp only [expectedSkeleton, List.getElem?_cons_succ, List.getElem?_cons_zero] at hs ⊢
     cases hk : s.lock with
     | none => simp [State.setLoc]
     | some j => simp [hk] at hs
-  | n + 18 =>
-    have : expectedSkeleton[n + 18]? = none := by simp [expectedSkeleton]
+  | n + 23 =>
+    have : expectedSkeleton[n + 23]? = none := by simp [expectedSkeleton]
     simp [this] at hs
 
-/-! ### the pinned handler loses an update (D20) -/
+/-! ### what goes wrong otherwise (each witness is replayed on the real threads by the harness) -/
 
 /-- thread 1 reads `__wsdl` (None) for the unguarded write-back, thread 0 then builds, publishes
     and answers, thread 1 stores its stale None over the cached document, enters the locked
@@ -487,10 +732,36 @@ theorem progress_step (rs : Bool) (s : State) (i : Nat)
 def raceSchedule : List Nat := [1, 1, 1] ++ List.replicate 17 0 ++ List.replicate 14 1
 
 theorem pinned_race :
-    (run false pinnedSkeleton init raceSchedule).builds = 2 ∧
-    (run false pinnedSkeleton init raceSchedule).responded 0 = some (some .whole) ∧
-    (run false pinnedSkeleton init raceSchedule).responded 1 = some (some .truncated) ∧
-    (run false pinnedSkeleton init raceSchedule).cache = some .truncated := by
+    (run (noFail false) pinnedSkeleton init raceSchedule).builds = 2 ∧
+    (run (noFail false) pinnedSkeleton init raceSchedule).responded 0 = some (.doc (some .whole)) ∧
+    (run (noFail false) pinnedSkeleton init raceSchedule).responded 1 = some (.doc (some .truncated)) ∧
+    (run (noFail false) pinnedSkeleton init raceSchedule).cache = some .truncated := by
   decide
+
+/-- the first build fails -/
+def firstFails (f : Fail) (resets : Bool) : Cfg := { resets := resets, fail := fun k => if k = 0 then f else .ok }
+
+/-- lock released in `else:` instead of `finally:`: the first build raises, the builder answers 500
+    and keeps the lock; the second requester waits for it forever -/
+theorem else_release_deadlock :
+    let s := run (firstFails .early true) elseReleaseSkeleton init (List.replicate 14 0 ++ List.replicate 30 1)
+    s.responded 0 = some .error ∧ s.lock = some 0 ∧ s.responded 1 = none ∧
+    stuck elseReleaseSkeleton s 1 = true ∧ stuck elseReleaseSkeleton s 0 = true := by
+  decide +kernel
+
+/-- a builder that keeps its element dicts: the first build raises late (after the portType / service
+    elements exist), the next requester builds on the used builder and is served — and caches — a
+    truncated document, although the handler is the good one -/
+theorem dirty_builder_after_failed_build :
+    let s := run (firstFails .late false) expectedSkeleton init (List.replicate 16 0 ++ List.replicate 22 1)
+    s.responded 0 = some .error ∧ s.responded 1 = some (.doc (some .truncated)) ∧ s.cache = some .truncated := by
+  decide +kernel
+
+/-- with the dicts reset the same history ends well -/
+theorem clean_builder_after_failed_build :
+    let s := run (firstFails .late true) expectedSkeleton init (List.replicate 16 0 ++ List.replicate 22 1)
+    s.responded 0 = some .error ∧ s.responded 1 = some (.doc (some .whole)) ∧ s.cache = some .whole ∧
+    s.lock = none ∧ s.builds = 2 ∧ s.succ = 1 := by
+  decide +kernel
 
 end SpyneModel.Conc
